@@ -21,6 +21,17 @@ use serde_json::{json, Value};
 use std::ops::Range;
 use std::sync::Arc;
 
+/// one failing step of a round trip
+#[derive(Clone, Debug)]
+pub struct Failure {
+    pub is_read: bool,
+    pub msg: String,
+    /// the indices of a failing take
+    pub indices: Option<Vec<u64>>,
+    /// first rows of the pages of the file (all columns)
+    pub page_starts: Vec<u64>,
+}
+
 pub struct Case {
     pub version: LanceFileVersion,
     pub schema: Arc<Schema>,
@@ -125,21 +136,16 @@ fn rows_of_ranges(rs: &[Range<u64>]) -> Vec<u64> {
     rs.iter().flat_map(|r| r.start..r.end).collect()
 }
 
-/// Err(one line per failing read); a failing write / open is a single line starting with WRITE / OPEN.
-pub async fn roundtrip(case: &Case, seed: u64) -> Result<(), String> {
-    let mut bad: Vec<String> = vec![];
-    let r = roundtrip_inner(case, seed, &mut bad).await;
-    if let Err(e) = r {
-        bad.push(e);
+/// every failing step (a failing write / open is a single failure whose message starts with WRITE / OPEN)
+pub async fn roundtrip(case: &Case, seed: u64) -> Vec<Failure> {
+    let mut bad: Vec<Failure> = vec![];
+    if let Err(e) = roundtrip_inner(case, seed, &mut bad).await {
+        bad.push(Failure { is_read: false, msg: e, indices: None, page_starts: vec![] });
     }
-    if bad.is_empty() {
-        Ok(())
-    } else {
-        Err(bad.join(" ;; "))
-    }
+    bad
 }
 
-async fn roundtrip_inner(case: &Case, seed: u64, bad: &mut Vec<String>) -> Result<(), String> {
+async fn roundtrip_inner(case: &Case, seed: u64, bad: &mut Vec<Failure>) -> Result<(), String> {
     let mut rng = Rng::new(seed);
     let opts = FileWriterOptions { format_version: Some(case.version), data_cache_bytes: case.opts_cache, max_page_bytes: case.opts_maxp, keep_original_array: case.keep, ..Default::default() };
     let w = write_file(&case.schema, &case.batches, opts).await.map_err(|e| format!("WRITE {e}"))?;
@@ -166,27 +172,44 @@ async fn roundtrip_inner(case: &Case, seed: u64, bad: &mut Vec<String>) -> Resul
             }
         }
     }
+    let mut page_starts: Vec<u64> = vec![];
+    for col in reader.metadata().column_infos.iter() {
+        let mut off = 0;
+        for p in col.page_infos.iter() {
+            page_starts.push(off);
+            off += p.num_rows;
+        }
+    }
+    page_starts.sort();
+    page_starts.dedup();
     let all_cols: Vec<usize> = (0..case.schema.fields().len()).collect();
     let all_rows: Vec<u64> = (0..total).collect();
     let bss = [1u32, 2, 3, 7, 16, 100, 1024, 100_000];
+    macro_rules! check {
+        ($cols:expr, $proj:expr, $params:expr, $rows:expr, $bs:expr, $what:expr, $idx:expr) => {
+            if let Err(e) = read_and_compare(&reader, case, $cols, $proj, $params, $rows, $bs, $what).await {
+                bad.push(Failure { is_read: true, msg: format!("[{io}] {e}"), indices: $idx, page_starts: page_starts.clone() });
+            }
+        };
+    }
     // full read
-    if let Err(e) = read_and_compare(&reader, case, &all_cols, None, ReadBatchParams::RangeFull, &all_rows, *rng.pick(&bss), "full").await { bad.push(format!("[{io}] {e}")); }
+    check!(&all_cols, None, ReadBatchParams::RangeFull, &all_rows, *rng.pick(&bss), "full", None);
     if total == 0 {
         return Ok(());
     }
-    if let Err(e) = read_and_compare(&reader, case, &all_cols, None, ReadBatchParams::RangeFull, &all_rows, *rng.pick(&bss[..4]), "full(small batches)").await { bad.push(format!("[{io}] {e}")); }
+    check!(&all_cols, None, ReadBatchParams::RangeFull, &all_rows, *rng.pick(&bss[..4]), "full(small batches)", None);
     // one range
     let a = rng.below(total);
     let b = a + 1 + rng.below(total - a);
-    if let Err(e) = read_and_compare(&reader, case, &all_cols, None, ReadBatchParams::Range(a as usize..b as usize), &(a..b).collect::<Vec<_>>(), *rng.pick(&bss), &format!("range {a}..{b}")).await { bad.push(format!("[{io}] {e}")); }
+    check!(&all_cols, None, ReadBatchParams::Range(a as usize..b as usize), &(a..b).collect::<Vec<_>>(), *rng.pick(&bss), &format!("range {a}..{b}"), None);
     // several ranges
     let rs = gen_ranges(&mut rng, total, false);
     if rs.iter().any(|r| r.end > r.start) {
-        if let Err(e) = read_and_compare(&reader, case, &all_cols, None, ReadBatchParams::Ranges(rs.clone().into()), &rows_of_ranges(&rs), *rng.pick(&bss), &format!("ranges {rs:?}")).await { bad.push(format!("[{io}] {e}")); }
+        check!(&all_cols, None, ReadBatchParams::Ranges(rs.clone().into()), &rows_of_ranges(&rs), *rng.pick(&bss), &format!("ranges {rs:?}"), None);
     }
-    // sorted indices
+    // sorted indices (with repeats now and then)
     let idx = gen_indices(&mut rng, total, false);
-    if let Err(e) = read_and_compare(&reader, case, &all_cols, None, ReadBatchParams::Indices(UInt32Array::from(idx.iter().map(|i| *i as u32).collect::<Vec<_>>())), &idx, *rng.pick(&bss), &format!("indices {idx:?}")).await { bad.push(format!("[{io}] {e}")); }
+    check!(&all_cols, None, ReadBatchParams::Indices(UInt32Array::from(idx.iter().map(|i| *i as u32).collect::<Vec<_>>())), &idx, *rng.pick(&bss), &format!("indices {idx:?}"), Some(idx.clone()));
     // projection: a subset of the top-level columns in another order
     if all_cols.len() > 1 {
         let mut sel: Vec<usize> = all_cols.iter().copied().filter(|_| rng.bool()).collect();
@@ -201,9 +224,9 @@ async fn roundtrip_inner(case: &Case, seed: u64, bad: &mut Vec<String>) -> Resul
         let proj = ReaderProjection::from_column_names(case.version, reader.schema(), &names_ref).map_err(|e| format!("projection {names:?}: {e}"))?;
         let rs = gen_ranges(&mut rng, total, false);
         if rs.iter().any(|r| r.end > r.start) {
-            if let Err(e) = read_and_compare(&reader, case, &sel, Some(proj.clone()), ReadBatchParams::Ranges(rs.clone().into()), &rows_of_ranges(&rs), *rng.pick(&bss), &format!("projection {names:?} ranges {rs:?}")).await { bad.push(format!("[{io}] {e}")); }
+            check!(&sel, Some(proj.clone()), ReadBatchParams::Ranges(rs.clone().into()), &rows_of_ranges(&rs), *rng.pick(&bss), &format!("projection {names:?} ranges {rs:?}"), None);
         }
-        if let Err(e) = read_and_compare(&reader, case, &sel, Some(proj), ReadBatchParams::RangeFull, &all_rows, *rng.pick(&bss), &format!("projection {names:?} full")).await { bad.push(format!("[{io}] {e}")); }
+        check!(&sel, Some(proj), ReadBatchParams::RangeFull, &all_rows, *rng.pick(&bss), &format!("projection {names:?} full"), None);
     }
     Ok(())
 }
@@ -224,15 +247,31 @@ fn type_equiv(a: &arrow_schema::DataType, b: &arrow_schema::DataType) -> bool {
     }
 }
 
-pub fn run_case(rt: &tokio::runtime::Runtime, case: &Case, seed: u64) -> (Result<Result<(), String>, String>, Vec<String>) {
-    catch_msg(|| {
+/// all failures of a case; a panic that escapes is one more failure
+pub fn run_case(rt: &tokio::runtime::Runtime, case: &Case, seed: u64) -> Vec<Failure> {
+    let (r, panics) = catch_msg(|| {
         rt.block_on(async {
             match tokio::time::timeout(std::time::Duration::from_secs(120), roundtrip(case, seed)).await {
                 Ok(r) => r,
-                Err(_) => Err("timeout: the reads did not complete within 120 s".to_string()),
+                Err(_) => vec![Failure { is_read: true, msg: "timeout: the reads did not complete within 120 s".to_string(), indices: None, page_starts: vec![] }],
             }
         })
-    })
+    });
+    match r {
+        Ok(mut v) => {
+            // a write that the writer REFUSES (Err, no panic anywhere) is outside the property
+            if v.len() == 1 && v[0].msg.starts_with("WRITE ") && panics.is_empty() {
+                v[0].msg = format!("REJECTED {}", v[0].msg);
+            }
+            for f in v.iter_mut() {
+                if !panics.is_empty() && !f.msg.starts_with("REJECTED") {
+                    f.msg = format!("{} [{}]", f.msg, panics.iter().take(3).cloned().collect::<Vec<_>>().join(" | "));
+                }
+            }
+            v
+        }
+        Err(p) => vec![Failure { is_read: false, msg: format!("PANIC {p}"), indices: None, page_starts: vec![] }],
+    }
 }
 
 pub fn run(args: &Args, sink: &mut Sink, rng: &mut Rng) {
@@ -247,36 +286,138 @@ pub fn run(args: &Args, sink: &mut Sink, rng: &mut Rng) {
         let case = gen_case(&mut crng, i, args.thorough());
         let seed = crng.next();
         let feats = Features::of(&case);
-        let (r, panics) = run_case(&rt, &case, seed);
+        let fails = run_case(&rt, &case, seed);
         sink.count(&format!("e2e:{}:{:?}", case.version, case.flavor));
         let key = format!("{:?}", case.describe());
         sink.nontrivial(&key);
-        let msg = match &r {
-            Ok(Ok(())) => {
-                sink.oracle_ok();
-                continue;
-            }
-            Ok(Err(e)) if e.starts_with("WRITE ") && !e.contains("panick") => {
-                // the writer refused the input: outside the property ("any data the writer accepts")
-                sink.count(&format!("e2e:rejected:{}", e.chars().take(60).collect::<String>()));
-                continue;
-            }
-            Ok(Err(e)) => format!("{e} {}", panics.join(" | ")),
-            Err(p) => format!("PANIC {p} [{}]", panics.join(" | ")),
-        };
         if only.is_some() {
-            eprintln!("case {i}: {}\n{}", msg, serde_json::to_string_pretty(&case.describe()).unwrap());
-            for (ci, f) in case.schema.fields().iter().enumerate() {
-                eprintln!("column {} = {:?}", f.name(), case.column(ci));
-            }
+            eprintln!("case {i}: {:?}\n{}\nfeatures {}", fails, serde_json::to_string_pretty(&case.describe()).unwrap(), feats.describe());
         }
-        let class = classify(&feats, &msg);
+        if fails.is_empty() {
+            sink.oracle_ok();
+            continue;
+        }
+        if fails[0].msg.starts_with("REJECTED") {
+            sink.count(&format!("e2e:rejected:{}", fails[0].msg.chars().take(70).collect::<String>()));
+            continue;
+        }
+        // the case is reported under a class only if EVERY failing step falls in a class
+        let classes: Vec<Option<&'static str>> = fails.iter().map(|f| classify(&feats, f)).collect();
+        let (class, shown) = match classes.iter().position(|c| c.is_none()) {
+            Some(p) => (None, &fails[p]),
+            None => (classes[0], &fails[0]),
+        };
         if let Some(c) = class {
             sink.count(&format!("e2e:known:{c}"));
         }
         let mut d = case.describe();
         d["features"] = feats.describe();
         d["case_index"] = json!(i);
-        sink.oracle_fail(class, &format!("e2e: written data does not read back: {}", msg.chars().take(400).collect::<String>()), d);
+        d["failing_steps"] = json!(fails.len());
+        sink.oracle_fail(class, &format!("e2e: written data does not read back: {}", shown.msg.chars().take(500).collect::<String>()), d);
     }
+}
+
+/// Shrink a failing case (single column, fewer batches / rows, default options) while it keeps failing
+/// with the same kind of message; prints the result.  (hx_c25 reduce --seed S --case I)
+pub fn reduce(args: &Args) -> i32 {
+    let rt = runtime();
+    let mut rng = Rng::new(args.seed ^ 0xE2E0_0000);
+    let only: usize = args.rest.iter().position(|a| a == "--case").and_then(|p| args.rest.get(p + 1)).and_then(|v| v.parse().ok()).unwrap_or(0);
+    let mut found = None;
+    for i in 0..=only {
+        let mut crng = rng.fork();
+        if i == only {
+            let case = gen_case(&mut crng, i, args.thorough());
+            let seed = crng.next();
+            found = Some((case, seed));
+        }
+    }
+    let (mut case, seed) = found.unwrap();
+    let fails = |c: &Case| -> Option<String> {
+        let v = run_case(&rt, c, seed);
+        let want_class = std::env::var("C25_KEEP_UNCLASSIFIED").is_ok();
+        let feats = Features::of(c);
+        v.iter().find(|f| !f.msg.starts_with("REJECTED") && (!want_class || classify(&feats, f).is_none())).map(|f| f.msg.clone())
+    };
+    let Some(first) = fails(&case) else {
+        println!("case {only} does not fail");
+        return 0;
+    };
+    println!("original failure: {}", first.chars().take(500).collect::<String>());
+    // single column
+    if case.schema.fields().len() > 1 {
+        for ci in 0..case.schema.fields().len() {
+            let schema = Arc::new(Schema::new(vec![case.schema.field(ci).clone()]));
+            let batches: Vec<RecordBatch> = case.batches.iter().map(|b| RecordBatch::try_new(schema.clone(), vec![b.column(ci).clone()]).unwrap()).collect();
+            let c2 = Case { version: case.version, schema, batches, opts_cache: case.opts_cache, opts_maxp: case.opts_maxp, keep: case.keep, flavor: case.flavor };
+            if fails(&c2).is_some() {
+                case = c2;
+                break;
+            }
+        }
+    }
+    // options
+    for k in 0..3 {
+        let mut c2 = Case { version: case.version, schema: case.schema.clone(), batches: case.batches.clone(), opts_cache: case.opts_cache, opts_maxp: case.opts_maxp, keep: case.keep, flavor: case.flavor };
+        match k {
+            0 => c2.opts_cache = None,
+            1 => c2.opts_maxp = None,
+            _ => c2.keep = None,
+        }
+        if fails(&c2).is_some() {
+            case = c2;
+        }
+    }
+    // batches, then rows
+    loop {
+        let mut progress = false;
+        if case.batches.len() > 1 {
+            for drop in 0..case.batches.len() {
+                let mut b2 = case.batches.clone();
+                b2.remove(drop);
+                let c2 = Case { version: case.version, schema: case.schema.clone(), batches: b2, opts_cache: case.opts_cache, opts_maxp: case.opts_maxp, keep: case.keep, flavor: case.flavor };
+                if fails(&c2).is_some() {
+                    case = c2;
+                    progress = true;
+                    break;
+                }
+            }
+        }
+        if !progress {
+            for bi in 0..case.batches.len() {
+                let n = case.batches[bi].num_rows();
+                if n < 2 {
+                    continue;
+                }
+                for (off, len) in [(0, n / 2), (n / 2, n - n / 2), (0, n - 1), (1, n - 1)] {
+                    let mut b2 = case.batches.clone();
+                    b2[bi] = case.batches[bi].slice(off, len);
+                    let c2 = Case { version: case.version, schema: case.schema.clone(), batches: b2, opts_cache: case.opts_cache, opts_maxp: case.opts_maxp, keep: case.keep, flavor: case.flavor };
+                    if fails(&c2).is_some() {
+                        case = c2;
+                        progress = true;
+                        break;
+                    }
+                }
+                if progress {
+                    break;
+                }
+            }
+        }
+        if !progress {
+            break;
+        }
+    }
+    println!("reduced failure: {}", fails(&case).unwrap_or_default().chars().take(700).collect::<String>());
+    println!("{}", serde_json::to_string_pretty(&case.describe()).unwrap());
+    println!("features: {}", Features::of(&case).describe());
+    for b in &case.batches {
+        if b.num_rows() <= 24 {
+            for c in b.columns() {
+                println!("{:?}", c);
+            }
+        }
+    }
+    0
 }
